@@ -454,12 +454,16 @@ var vCatalogTransform = []vOp{
 	{name: "ToMap", nsrc: 1, cbs: []string{"f"},
 		mk: func(c *vCtx) vPipeline {
 			log := &vKeyLog{}
-			return vPipe(ToMap(func(v int64) (int64, int64) {
+			inner := vPipe(ToMap(func(v int64) (int64, int64) {
 				vFP("f")
 				k := vUFInt("k", v)
 				log.keys = append(log.keys, k)
 				return k, vUFInt("w", v)
 			})(c.src[0]), log.flat)
+			return func(ctx context.Context, rec *vRecorder) Subscription {
+				log.keys = nil // the key log belongs to one subscription
+				return inner(ctx, rec)
+			}
 		},
 		ref: func(c *vCtx, in []vStep) []vEv {
 			switch vEnd(in) {
@@ -478,12 +482,16 @@ var vCatalogTransform = []vOp{
 	{name: "ToMapI", nsrc: 1, cbs: []string{"f"},
 		mk: func(c *vCtx) vPipeline {
 			log := &vKeyLog{}
-			return vPipe(ToMapI(func(v int64, i int64) (int64, int64) {
+			inner := vPipe(ToMapI(func(v int64, i int64) (int64, int64) {
 				vFP("f")
 				k := vUFInt("k", v, i)
 				log.keys = append(log.keys, k)
 				return k, vUFInt("w", v, i)
 			})(c.src[0]), log.flat)
+			return func(ctx context.Context, rec *vRecorder) Subscription {
+				log.keys = nil // the key log belongs to one subscription
+				return inner(ctx, rec)
+			}
 		},
 		ref: func(c *vCtx, in []vStep) []vEv {
 			switch vEnd(in) {
@@ -503,12 +511,16 @@ var vCatalogTransform = []vOp{
 	{name: "ToMapWithContext", nsrc: 1, cbs: []string{"f"},
 		mk: func(c *vCtx) vPipeline {
 			log := &vKeyLog{}
-			return vPipe(ToMapWithContext(func(ctx context.Context, v int64) (int64, int64) {
+			inner := vPipe(ToMapWithContext(func(ctx context.Context, v int64) (int64, int64) {
 				vFP("f")
 				k := vUFInt("k", v)
 				log.keys = append(log.keys, k)
 				return k, vUFInt("w", v)
 			})(c.src[0]), log.flat)
+			return func(ctx context.Context, rec *vRecorder) Subscription {
+				log.keys = nil // the key log belongs to one subscription
+				return inner(ctx, rec)
+			}
 		},
 		ref: func(c *vCtx, in []vStep) []vEv {
 			switch vEnd(in) {
@@ -527,12 +539,16 @@ var vCatalogTransform = []vOp{
 	{name: "ToMapIWithContext", nsrc: 1, cbs: []string{"f"},
 		mk: func(c *vCtx) vPipeline {
 			log := &vKeyLog{}
-			return vPipe(ToMapIWithContext(func(ctx context.Context, v int64, i int64) (int64, int64) {
+			inner := vPipe(ToMapIWithContext(func(ctx context.Context, v int64, i int64) (int64, int64) {
 				vFP("f")
 				k := vUFInt("k", v, i)
 				log.keys = append(log.keys, k)
 				return k, vUFInt("w", v, i)
 			})(c.src[0]), log.flat)
+			return func(ctx context.Context, rec *vRecorder) Subscription {
+				log.keys = nil // the key log belongs to one subscription
+				return inner(ctx, rec)
+			}
 		},
 		ref: func(c *vCtx, in []vStep) []vEv {
 			switch vEnd(in) {
@@ -670,12 +686,12 @@ var vCatalogTransform = []vOp{
 			return vPipe(DoOnSubscribe[int64](func() { vFP("ts") })(c.src[0]), vFlatInt)
 		},
 		ref: vRefPass},
-	{name: "TapOnFinalize", nsrc: 1, cbs: nil /* the finalizer is a teardown (C03), not a C07 callback position */,
+	{name: "TapOnFinalize", nsrc: 1, cbs: nil, /* the finalizer is a teardown (C03), not a C07 callback position */
 		mk: func(c *vCtx) vPipeline {
 			return vPipe(TapOnFinalize[int64](func() { vFP("tf") })(c.src[0]), vFlatInt)
 		},
 		ref: vRefPass},
-	{name: "DoOnFinalize", nsrc: 1, cbs: nil /* the finalizer is a teardown (C03), not a C07 callback position */,
+	{name: "DoOnFinalize", nsrc: 1, cbs: nil, /* the finalizer is a teardown (C03), not a C07 callback position */
 		mk: func(c *vCtx) vPipeline {
 			return vPipe(DoOnFinalize[int64](func() { vFP("tf") })(c.src[0]), vFlatInt)
 		},
